@@ -210,7 +210,7 @@ func c15TargetType(r *rand.Rand, b bcl.Block, mutate bool) reflect.Type {
 		} else {
 			tag = k
 		}
-		if !validGoName(goName) {
+		if !validGoName(goName) || goName[0] < 'A' || goName[0] > 'Z' {
 			// keys that no Go identifier can spell (control bytes): reachable through a tag only
 			goName = fmt.Sprintf("K%x", base)
 			tag = k
